@@ -216,11 +216,14 @@ func AsWriter(obj Object) (io.Writer, *Error) {
 }
 
 func AsIterator(obj Object) (Iterator, *Error) {
+	// An object that can make an iterator is asked for a fresh one, as the
+	// VM does for a loop: a channel is also an iterator itself, and used as
+	// one it keeps the position of every consumer in one place
 	switch obj := obj.(type) {
-	case Iterator:
-		return obj, nil
 	case Iterable:
 		return obj.Iter(), nil
+	case Iterator:
+		return obj, nil
 	default:
 		return nil, TypeErrorf("type error: expected an iterable object (%s given)", obj.Type())
 	}
